@@ -213,24 +213,54 @@ func foldRound(suppress bool, threshold int, st *foldState, round int, obs int, 
 	return
 }
 
-// foldWalk explores every extension of the history in hist (already applied to st) up to
+// foldTally collects outcome classes of one shard unit (flushed once: the hot loop must not
+// take the Ctx lock per history).
+type foldTally struct {
+	dropAt   [10]int64
+	aliveRun [6]int64
+}
+
+func (ft *foldTally) flush(c *vfw.Ctx) {
+	for d, n := range ft.dropAt {
+		if n > 0 {
+			c.Outcome(fmt.Sprintf("fold:drop@%d", d))
+			c.Add(fmt.Sprintf("fold_drop_at_round_%d", d), n)
+		}
+	}
+	for r, n := range ft.aliveRun {
+		if n > 0 {
+			c.Outcome(fmt.Sprintf("fold:alive:run=%d", r))
+			c.Add(fmt.Sprintf("fold_alive_with_run_%d", r), n)
+		}
+	}
+}
+
+// foldWalk explores every extension of the history in fc.Hist (already applied to st) up to
 // maxLen rounds; it returns the number of histories evaluated and how many had a timeout.
-// only >= 0 restricts the FIRST round to that observation (the shard unit).
-func foldWalk(c *vfw.Ctx, fc *foldCase, st foldState, maxLen int, hadTimeout bool, only int) (n, nt int64) {
-	if len(fc.Hist) == maxLen {
+// prefix restricts the first len(prefix) rounds to those observations (the shard unit); a
+// node inside the prefix is counted only by the unit whose remaining prefix is all zeros.
+func foldWalk(c *vfw.Ctx, fc *foldCase, st foldState, maxLen int, hadTimeout bool, prefix []int, ft *foldTally) (n, nt int64) {
+	depth := len(fc.Hist)
+	if depth == maxLen {
 		return
 	}
 	for obs := 0; obs < nObs; obs++ {
-		if only >= 0 && obs != only {
+		if depth < len(prefix) && obs != prefix[depth] {
 			continue
+		}
+		mine := true // is this node counted by this unit?
+		for d := depth + 1; d < len(prefix); d++ {
+			mine = mine && prefix[d] == 0
 		}
 		s2 := st.clone()
 		fc.Hist = append(fc.Hist, obs)
-		realDrop, refDrop, realCredit, refCredit := foldRound(fc.Suppress, fc.Threshold, &s2, len(fc.Hist)-1, obs, false)
-		n++
+		realDrop, refDrop, realCredit, refCredit := foldRound(fc.Suppress, fc.Threshold, &s2, depth, obs, false)
 		ht := hadTimeout || obs != oAnswered
-		if ht {
-			nt++
+		if mine {
+			n++
+			if ht {
+				nt++
+			}
 		}
 		stop := realDrop || refDrop
 		switch {
@@ -245,18 +275,18 @@ func foldWalk(c *vfw.Ctx, fc *foldCase, st foldState, maxLen int, hadTimeout boo
 			c.Outcome("fold:violation")
 			c.Violate("fold:credit-flag", fmt.Sprintf("after %s the real functions report credited=%v for the last failure, the documented rules (LinktestCreditedCount: forgiven because the link showed life) give %v", fc.String(), realCredit, refCredit), replayCase{Part: "fold", Fold: cloneFold(fc)})
 			stop = true
-		case realDrop:
-			c.Outcome(fmt.Sprintf("fold:drop@%d", len(fc.Hist)))
+		case realDrop && mine:
+			ft.dropAt[min(depth+1, len(ft.dropAt)-1)]++
 		}
 		if !stop {
-			if len(fc.Hist) == maxLen {
-				c.Outcome(fmt.Sprintf("fold:alive:run=%d", s2.tr.Run()))
+			if depth+1 == maxLen && mine {
+				ft.aliveRun[min(s2.tr.Run(), len(ft.aliveRun)-1)]++
 			}
-			a, b := foldWalk(c, fc, s2, maxLen, ht, -1)
+			a, b := foldWalk(c, fc, s2, maxLen, ht, prefix, ft)
 			n += a
 			nt += b
 		}
-		fc.Hist = fc.Hist[:len(fc.Hist)-1]
+		fc.Hist = fc.Hist[:depth]
 	}
 	return
 }
@@ -304,18 +334,22 @@ func partFold(c *vfw.Ctx) {
 	}
 	for _, sup := range []bool{false, true} {
 		for thr := 1; thr <= 4; thr++ {
-			// one shard unit = one first observation (its whole subtree)
+			// one shard unit = the subtree below one two-observation prefix
 			for first := 0; first < nObs; first++ {
-				if !c.Next() {
-					continue
+				for second := 0; second < nObs; second++ {
+					if !c.Next() {
+						continue
+					}
+					if c.Expired() {
+						return
+					}
+					fc := &foldCase{Suppress: sup, Threshold: thr}
+					var ft foldTally
+					n, nt := foldWalk(c, fc, newFoldState(sup, thr), maxLen, false, []int{first, second}, &ft)
+					ft.flush(c)
+					c.Count(n, nt)
+					c.Add("fold_histories", n)
 				}
-				if c.Expired() {
-					return
-				}
-				fc := &foldCase{Suppress: sup, Threshold: thr}
-				n, nt := foldWalk(c, fc, newFoldState(sup, thr), maxLen, false, first)
-				c.Count(n, nt)
-				c.Add("fold_histories", n)
 			}
 		}
 	}
